@@ -5,6 +5,7 @@ import (
 	"encoding/json"
 	"errors"
 	"io"
+	"net"
 	"strings"
 	"sync"
 )
@@ -23,6 +24,7 @@ type inItem struct {
 // library sent from Out.  All events are logged inside the method, on the
 // library's goroutine.
 type VChan struct {
+	frame        []byte // the frame being assembled (see Send)
 	Name         string
 	Rec          *Recorder
 	RecvUnblocks bool // does Close unblock a pending Recv (pipe-like) or not (channel.Direct-like)?
@@ -89,12 +91,18 @@ func (c *VChan) Closes() int { c.mu.Lock(); defer c.mu.Unlock(); return c.closed
 // Send implements channel.Channel.
 func (c *VChan) Send(b []byte) error {
 	c.Rec.Log("SB", "ch", c.Name)
+	// Like the header framings, this channel assembles the outgoing frame in one buffer of its own: it is safe for one
+	// sender at a time and no more (the contract of channel.Channel).  A Send that overlaps another one transmits
+	// whatever the buffer holds when it gets to write.
+	c.mu.Lock()
+	c.frame = append(c.frame[:0], b...)
+	c.mu.Unlock()
 	if h := c.InSendHook; h != nil {
 		h()
 	}
 	c.mu.Lock()
 	fail := c.sendFail || c.closed > 0
-	cp := append([]byte(nil), b...)
+	cp := append([]byte(nil), c.frame...)
 	if !fail {
 		c.Out = append(c.Out, cp)
 	}
@@ -141,6 +149,8 @@ func (c *VChan) Recv() ([]byte, error) {
 		kind := "err"
 		if it.err == io.EOF {
 			kind = "eof"
+		} else if errors.Is(it.err, net.ErrClosed) || (errChannelClosed != nil && errors.Is(it.err, errChannelClosed)) {
+			kind = "closed" // a closing-class error (channel.IsErrClosing): the transport was closed underneath
 		}
 		c.Rec.Log("RecvErr", "ch", c.Name, "kind", kind)
 		c.Rec.Log("RE", "ch", c.Name)
@@ -156,6 +166,9 @@ func (c *VChan) Recv() ([]byte, error) {
 	c.Rec.Log("RE", "ch", c.Name)
 	return it.data, it.err
 }
+
+// ErrClosingInjected is a closing-class Recv error as a network connection closed underneath reports it.
+var ErrClosingInjected error = &net.OpError{Op: "read", Net: "tcp", Err: net.ErrClosed}
 
 var errClosedPipe = &closedErr{}
 
